@@ -3,6 +3,7 @@
 package tb
 
 import (
+	"os"
 	"fmt"
 	"sort"
 	"strings"
@@ -27,6 +28,7 @@ type c02Rig struct {
 	scDone chan error
 	clock  int64
 	devID  string
+	uAway  bool // the upstream store is already stopped
 }
 
 var c02Seq int
@@ -79,7 +81,13 @@ func (g *c02Rig) stop() {
 	g.s.choose = false
 	g.sc.Stop(nil)
 	g.s.run(2 * time.Second)
-	_ = g.s.do(func() error { g.d.Close(); g.u.Close(); return nil }, false)
+	_ = g.s.do(func() error {
+		g.d.Close()
+		if !g.uAway {
+			g.u.Close()
+		}
+		return nil
+	}, false)
 }
 
 // subtree reads the device tree below devID as one canonical string per placement.
@@ -130,6 +138,7 @@ type c02Op struct {
 type c02State struct {
 	disabled bool
 	linkDown bool
+	upAway   bool // the upstream store is not running (its bus is reachable)
 	aDeleted map[string]bool // side -> believes A deleted (for applicability only)
 	cExists  bool
 	newest   map[string]data.Point // "node/type/key" and "edge:parent>node/type" -> newest accepted write
@@ -294,6 +303,44 @@ func c02Ops() []c02Op {
 		}
 		return true, nil
 	}})
+	// the upstream process stops, and its clients reconnect to its bus before its store answers again
+	// (a server that is still starting): the catch-up attempt at reconnect finds no responder
+	ops = append(ops, c02Op{name: "upstream stops; its clients reconnect before its store is back", do: func(g *c02Rig, st *c02State) (bool, error) {
+		if st.linkDown || st.disabled || st.upAway {
+			return false, nil
+		}
+		var remotes []*nats.Conn
+		for _, nc := range g.u.Bus.Conns() {
+			if nc.Opts.NoEcho {
+				remotes = append(remotes, nc)
+			}
+		}
+		for _, nc := range remotes {
+			nc.LinkDown()
+		}
+		g.u.Store.Stop(nil)
+		g.u.StopKeepBus()
+		st.upAway, g.uAway = true, true
+		for _, nc := range remotes {
+			nc.LinkUp()
+		}
+		return true, nil
+	}})
+	ops = append(ops, c02Op{name: "upstream store is back", do: func(g *c02Rig, st *c02State) (bool, error) {
+		if !st.upAway {
+			return false, nil
+		}
+		file, dir, url := g.u.File, g.u.Dir, g.u.URL
+		g.u.Dir = ""
+		in2, err := sh.New(sh.Opts{File: file, NoTemplate: true, URL: url, Mode: nats.Controlled, RootID: "cloudU"})
+		if err != nil {
+			return true, fmt.Errorf("upstream does not come back: %w", err)
+		}
+		in2.Dir = dir
+		g.u = in2
+		st.upAway, g.uAway = false, false
+		return true, nil
+	}})
 	ops = append(ops, c02Op{name: "a sync period passes"})
 	return ops
 }
@@ -377,6 +424,10 @@ func c02Body(t *testing.T, depth, devBound int) mc.Body {
 					x.Logf("%s", op.name)
 					continue
 				}
+				if st.upAway && (strings.HasSuffix(op.name, " at U") || op.name == "upstream restarts") {
+					out = mc.Outcome{Trivial: true, Obs: "inapplicable"}
+					return
+				}
 				early := devBound > 0 && x.Deviate(2, "next operation before quiescence") == 1
 				var ok bool
 				err := g.s.do(func() error {
@@ -392,10 +443,10 @@ func c02Body(t *testing.T, depth, devBound int) mc.Body {
 					out = mc.Outcome{Violation: "operation " + op.name + " refused: " + err.Error(), Key: "legal-write-refused"}
 					return
 				}
-				if op.tomb && (st.disabled || st.linkDown) && outageTomb == "" {
+				if op.tomb && (st.disabled || st.linkDown || st.upAway) && outageTomb == "" {
 					outageTomb = op.name
 				}
-				if !op.tomb && (st.disabled || st.linkDown) && st.aDeleted["any"] && (strings.Contains(op.name, " on A ") || strings.Contains(op.name, "A>B")) && outageDeadWrite == "" {
+				if !op.tomb && (st.disabled || st.linkDown || st.upAway) && st.aDeleted["any"] && (strings.Contains(op.name, " on A ") || strings.Contains(op.name, "A>B")) && outageDeadWrite == "" {
 					outageDeadWrite = op.name
 				}
 				if !early {
@@ -404,15 +455,37 @@ func c02Body(t *testing.T, depth, devBound int) mc.Body {
 				x.Logf("%s", op.name)
 			}
 			// link up through catch-up synchronisation
+			byName := func(n string) c02Op {
+				for _, o := range ops {
+					if o.name == n {
+						return o
+					}
+				}
+				panic("no op " + n)
+			}
+			if st.upAway {
+				if err := g.s.do(func() error { _, e := byName("upstream store is back").do(g, st); return e }, false); err != nil {
+					out = mc.Outcome{Violation: err.Error(), Key: "upstream-does-not-reopen"}
+					return
+				}
+				x.Logf("upstream store is back (end of history)")
+			}
 			if st.disabled {
-				_ = g.s.do(func() error { _, e := ops[len(ops)-5].do(g, st); return e }, false)
+				_ = g.s.do(func() error { _, e := byName("enable sync").do(g, st); return e }, false)
 				x.Logf("enable sync (end of history)")
 			}
 			if st.linkDown {
-				_ = g.s.do(func() error { _, e := ops[len(ops)-3].do(g, st); return e }, false)
+				_ = g.s.do(func() error { _, e := byName("link restored").do(g, st); return e }, false)
 				x.Logf("link restored (end of history)")
 			}
 			g.s.choose = false
+			if os.Getenv("VERIF_C02_DEBUG") != "" {
+				for i := 0; i < 5; i++ {
+					g.s.run(1100 * time.Millisecond)
+					k, m := compare(fmt.Sprint("debug period ", i))
+					fmt.Println("DEBUG", i, k, m)
+				}
+			}
 			g.s.run(5500 * time.Millisecond)
 			g.s.quiesce()
 			if g.s.stuck != "" {
@@ -461,7 +534,7 @@ func TestC02(t *testing.T) {
 			depth, dev = 4, 1
 		}
 		r.Explore(mc.Config{Name: fmt.Sprintf("histories-d%d-dev%d", depth, dev), Serial: true, SplitDepth: 2, DevBound: dev, StopAfterViolations: 40,
-			Rule: fmt.Sprintf("two real stores linked by the real SyncClient (period 1 s) after an initial catch-up; all histories of %d operations over 22 (point with an existing / a new identity, edge point on a shared node and on the second placement of a mirrored node on a shared node at either side, node creation at either side, delete / undelete at either side, sync disabled = clean outage / re-enabled, link lost abruptly / restored, upstream process restarted, a sync period passes), %d scheduling deviations; then the link is brought up, 5 periods pass, and the device subtrees (deleted nodes included, every point with all fields) must be identical and hold the newest accepted write per identity", depth, dev)},
+			Rule: fmt.Sprintf("two real stores linked by the real SyncClient (period 1 s) after an initial catch-up; all histories of %d operations over 24 (point with an existing / a new identity, edge point on a shared node and on the second placement of a mirrored node on a shared node at either side, node creation at either side, delete / undelete at either side, sync disabled = clean outage / re-enabled, link lost abruptly / restored, upstream process restarted, upstream stopped with its clients reconnecting before its store answers / upstream store back, a sync period passes), %d scheduling deviations; then the link is brought up, 5 periods pass, and the device subtrees (deleted nodes included, every point with all fields) must be identical and hold the newest accepted write per identity", depth, dev)},
 			c02Body(t, depth, dev))
 		r.Assume("outages: the sync node disabled / re-enabled (clean disconnect) and abrupt loss of the sync client's upstream connection (queued deliveries lost, its publishes buffered and flushed on recovery, Disconnected/Reconnected handlers); an upstream restart = its clients lose the link, the store stops and reopens the same file, the clients reconnect")
 		r.Assume("root edge points of the device node are not compared (the code excludes them from synchronisation)")
